@@ -1735,6 +1735,37 @@ def build(unit_dir, repo, canary=False):
     for it in unit['items']:
         sf = sf_for(it['file'])
         mod = it.get('mod')
+        if 'assoc_const' in it and 'impl' in it and 'fn' not in it:
+            # associated const of an inherent impl (`const VERSION: u8 = 2;`): copied verbatim into
+            # the impl block it shares with the fn items of the same impl
+            hits = []
+            for mods_, cand in sf.items():
+                if cand[0] != 'impl' or cand[4] is None or (mod is not None and mods_ != mod):
+                    continue
+                if rustlex.impl_header_norm(cand[1]) != rustlex.norm(it['impl']):
+                    continue
+                for sub in rustlex.top_items(sf.toks, cand[4] + 1, cand[3]):
+                    if sub[0] == 'const' and sub[1] == it['assoc_const']:
+                        hits.append((cand, sub))
+            if len(hits) != 1:
+                raise Undecided('%s: expected exactly one `const %s` in `impl %s` of %s, found %d'
+                                % (unit['name'], it['assoc_const'], it['impl'], it['file'], len(hits)))
+            impl_item, c_item = hits[0]
+            raw_h = sf.text(impl_item[2], impl_item[4] - 1)
+            header = FnRewriter(sf, c_item, it['assoc_const'], None, unit, [])._map_paths_text(
+                raw_h[raw_h.index('impl'):], unit.get('pathmap', {}))
+            if header != open_impl:
+                if open_impl is not None:
+                    pieces.append(Piece('}\n', ('gen', 'impl close')))
+                pieces.append(Piece(header.rstrip() + ' {\n', ('gen', 'impl header from ' + it['file'])))
+                open_impl = header
+            raw = sf.text(c_item[2], c_item[3])
+            text = strip_attrs_and_docs(sf, c_item[2], c_item[3])
+            text = FnRewriter(sf, c_item, it['assoc_const'], None, unit, [])._map_paths_text(text, unit.get('pathmap', {}))
+            pieces.append(Piece(text + '\n', ('repo', it['file'], sf.line_of(sf.toks[c_item[2]].start))))
+            items_info.append({'assoc_const': it['assoc_const'], 'file': it['file'],
+                               'line': sf.line_of(sf.toks[c_item[2]].start), 'sha256': sha(raw)})
+            continue
         if 'assoc_type' in it and 'impl' in it and 'fn' not in it:
             # associated type of a trait impl (`type X = ...;`): copied verbatim into the impl
             # block it shares with the fn items of the same impl that follow / precede it
